@@ -497,6 +497,9 @@ fn run_op(cx: &mut Ctx, spec: OpSpec, body: impl FnOnce(&mut Ctx) -> Out) -> Out
                     // C03: progress
                     if let Some((bl, _, _)) = b.old {
                         let al = a.old.map_or(0, |o| o.0);
+                        if a.old.map_or(true, |o| o.1 == b.old.unwrap().1) && bl > al && bl - al > b.r {
+                            vio("C02", format!("{} existing elements moved by one key-adding call (R={}) [{}]", bl - al, b.r, spec.toks));
+                        }
                         let expect = bl - bl.min(b.r);
                         let carried = true;
                         if carried && al != expect && a.old.map_or(true, |o| o.1 == b.old.unwrap().1) {
